@@ -28,7 +28,8 @@ EXPLANATION = ("Lean theorems about the whole exit-code chain (CppCheckLogger::r
                "counterexamples kept for the two statements that were repaired (F9 a59832c, F25b 4c58edf) and for duplicate texts. Tie: "
                "fail-closed extraction of the chain's statements + CLI correspondence. The per-file analysis and the matching of a "
                "suppression against a finding are parameters (reference runs / real SuppressionList answers).")
-THEOREMS = ["Cppcheck.ExitCode.exit_iff_partial", "Cppcheck.ExitCode.exit_iff_patched", "Cppcheck.ExitCode.exit_else_zero",
+THEOREMS = ["Cppcheck.ExitCode.exit_iff_patched", "Cppcheck.ExitCode.exit_iff_any_schedule", "Cppcheck.ExitCode.exit_iff_partial",
+            "Cppcheck.ExitCode.exit_else_zero",
             "Cppcheck.ExitCode.exit_zero_when_errorExitCode_zero", "Cppcheck.ExitCode.invalid_cmdline_is_1",
             "Cppcheck.ExitCode.safety_critical_is_1", "Cppcheck.ExitCode.lost_pipe_fails",
             "Cppcheck.ExitCode.unmatched_ignores_nofail_counterexample", "Cppcheck.ExitCode.check_config_counterexample",
@@ -694,6 +695,10 @@ def run_one(ev, res, pdir, proj, case, name, variant, expect_key=None, sample=Fa
         if case.get(fl):
             res.count("opt:" + fl)
     if r["kind"] == "run":
+        if r["nprinted"] and r["expected"] == 0 and int(case["code"]) % 256 != 0:
+            res.count("discriminating:printed-but-all-exitcode-suppressed" + ("-status-0" if r["rc"] == 0 else "-STATUS-NONZERO"))
+        if r["nprinted"] == 0 and int(case["code"]) % 256 != 0:
+            res.count("nothing-printed-status-%s" % ("0" if r["rc"] == 0 else "nonzero"))
         res.count("unmatched-reported" if r["um"] else "no-unmatched")
         res.count("exit:" + ("code" if r["rc"] not in (0,) else "0"))
     return r
@@ -703,6 +708,11 @@ def run(ctx, res):
     rng = ctx.rng
     thorough = ctx.tier == "thorough"
     core.prove(ctx, res, MODULES, THEOREMS)
+    res.assumptions += [
+        "the per-file analysis is a function of the file (model inputs = findings of reference runs of the same binary without suppressions)",
+        "the answers of the suppression lists for a finding are those of the real SuppressionList on (id, file, line) (harness c25); symbolName / hash / macro suppressions are not generated",
+        "the unmatchedSuppression messages of a run are taken from the run itself (their exactness is property C24); for them only the exit status is an independent observation",
+        "theorem hypotheses: no --safety, exit code mod 256 != 0, no lost worker, < 2^32 files, equal rendered text => equal exitcode/global-suppression answers (keyCoherent), unmatchedSuppression messages are visible messages"]
     # ---- T1/T2
     variant, errs = extract_chain(core.REPO)
     # the model the check runs is the chain with both fixes (a59832c, 4c58edf); seeing the old statement shape again is a regression
